@@ -143,7 +143,13 @@ pub fn run(index: usize, b: &Behaviour, enc: EncImpl, seed: u64, perturb: bool) 
             chan.push_back(bytes);
           }
           Err(e) => {
-            if !too_big {
+            // The sender's engine may have been closed by this harness's own liveness trick (the record the peer
+            // seals in an "hb" step comes with a counter that an earlier "reflect" step has advanced): a closed
+            // engine frames nothing, and that says nothing about record sizes.
+            let sender_closed = matches!(a.eng.phase, rzmq::protocol::zmtp::engine::ZmtpPhase::Closed);
+            if !too_big && sender_closed {
+              issues.push(Issue { class: "drift".into(), code: "sender-closed".into(), step: si + 1, detail: format!("message {} not framed: the sending engine is closed", id) });
+            } else if !too_big {
               issues.push(Issue { class: "prop".into(), code: "undecodable".into(), step: si + 1, detail: format!("message {} (class {}) that fits a record was refused: {}", id, class, e) });
             }
             sender_failed = true;
